@@ -14,6 +14,8 @@ pub struct Entry {
     pub f64: Option<Box<dyn Fn(&[f64]) -> Out<f64>>>,
     pub budget: usize,
     pub dom: Dom,
+    /// machine-integer entry: (signed, real 8-bit implementation run on the same inputs; None = panic)
+    pub int: Option<(bool, Box<dyn Fn(&[i64]) -> Option<Out<i64>>>)>,
 }
 
 pub struct Reg { pub entries: Vec<Entry> }
@@ -21,7 +23,7 @@ impl Reg {
     pub fn new() -> Self { Reg { entries: vec![] } }
     pub fn add(&mut self, name: &str, nin: usize, sym: Box<dyn Fn(&[Sym]) -> Out<Sym>>, f: Option<Box<dyn Fn(&[f64]) -> Out<f64>>>) -> &mut Entry {
         assert!(!self.entries.iter().any(|e| e.name == name), "duplicate entry {}", name);
-        self.entries.push(Entry { name: name.to_string(), nin, sym, f64: f, budget: 100_000, dom: Dom::Mixed });
+        self.entries.push(Entry { name: name.to_string(), nin, sym, f64: f, budget: 100_000, dom: Dom::Mixed, int: None });
         self.entries.last_mut().unwrap()
     }
 }
@@ -47,4 +49,22 @@ macro_rules! ep_sym {
             Box::new(move |$a: &[$crate::sym::Sym]| -> $crate::explore::Out<$crate::sym::Sym> { #[allow(dead_code)] type T = $crate::sym::Sym; $body }),
             None)
     };
+}
+
+/// integer entries: the body is compiled for the symbolic integer `$S` and for the real 8-bit type `$I`
+#[macro_export]
+macro_rules! ep_int {
+    ($reg:expr, $name:expr, $nin:expr, $signed:expr, $S:ty, $I:ty, |$a:ident| $body:block) => {{
+        let e = $reg.add(&$name, $nin,
+            Box::new(move |inp: &[$crate::sym::Sym]| -> $crate::explore::Out<$crate::sym::Sym> {
+                #[allow(dead_code)] type T = $S;
+                let $a: Vec<T> = inp.iter().map(|s| <$S>::from(*s)).collect();
+                let r: Vec<T> = $body;
+                $crate::explore::Out::of(r.iter().map(|x| x.0).collect()) }),
+            None);
+        e.int = Some(($signed, Box::new(move |inp: &[i64]| -> Option<$crate::explore::Out<i64>> {
+                #[allow(dead_code)] type T = $I;
+                let $a: Vec<T> = inp.iter().map(|x| *x as $I).collect();
+                std::panic::catch_unwind(std::panic::AssertUnwindSafe(|| { let r: Vec<T> = $body; $crate::explore::Out::of(r.iter().map(|x| *x as i64).collect()) })).ok() })));
+    }};
 }
